@@ -357,6 +357,12 @@ def run(ctx):
     _pl = ctx.fn(_t.NS + ".populate_live_points")
     from ..pat import find_stmt as _fst
     ctx.ob("R-FIELDS", "C01.7", _pl, "the live array is allocated with the same canonical field order (names=self.model.names)", len(_fst("$$lp = empty_structured_array(self.nlive, names=self.model.names)", _pl.node)) == 1, "")
+    # positional views of caller-supplied arrays are only combined with scalars (their columns follow the caller's memory order)
+    from ..rules import fieldorder as _fo2
+    _pv = _fo2.positional_view_uses(prog)
+    ctx.require(len(_pv) >= 4, f"only {len(_pv)} uses of a positional view found (in_unit_hypercube / log_prior_unit_hypercube expected)")
+    for _f, _n, _ok, _why in _pv:
+        ctx.ob("R-FIELDS", "C01.7", _f, "a positional (memory-order) view of a structured array is combined only with scalars, never with a per-parameter array", _ok, _why, node=_n)
     ctx.floor("C01.7", 4)
     ctx.assumptions.append("proposal classes return points whose logP/logL fields are what they claim (C09 covers the in-package proposals)")
 
